@@ -58,19 +58,23 @@ def boot(scratch):
     import mpilot.params as prm
     from numbers import Number
     Number.register(SymNum)
-    prm.int = symx.symint_text
-    prm.float = symx.symfloat_text
+    prm.int = symx.IntShadow
+    prm.float = symx.FloatShadow
     prm.os = _OsStub()
     import mpvnodes  # noqa: F401
 
 
 # ------------------------------------------------------------------ raw values
+CONCRETE_INTS = False     # BooleanParameter tests isinstance(value, int): integers are enumerated concretely for it
 RAW_KINDS = ['int', 'float', 'bool', 'str', 'str_int', 'str_float', 'str_bool', 'list_int', 'list_str', 'list_mixed', 'nested', 'empty_list',
              'dict', 'empty_dict', 'none', 'command', 'result_name', 'type', 'abs_path', 'rel_path']
 
 
 def make_raw(ctx, kind, tag='v'):
     """-> (raw value with proxies, spec tree for concretisation)"""
+    if kind == 'int' and CONCRETE_INTS:
+        i = [0, 1, 2, -3][ctx.choice(tag + '.intchoice', 4)]
+        return i, ('const', i)
     if kind == 'int':
         v = SymNum(ctx.real(tag + '.int', integer=True), 'i')
         return v, ('num', v)
@@ -340,6 +344,8 @@ def call_clean(param, raw, program, E):
 
 def harness(ctx, cfg):
     E = sys.modules['mpilot.exceptions']
+    global CONCRETE_INTS
+    CONCRETE_INTS = cfg['param'] == 'Boolean'
     program = make_program(WD if cfg['wd'] else None)
     param = make_param(cfg['param'])
     raw, spec = make_raw(ctx, cfg['raw'])
@@ -353,7 +359,7 @@ def harness(ctx, cfg):
     def ob(label, term, group):
         obs.append((label, term if z3.is_expr(term) else z3.BoolVal(bool(term))))
         groups[label] = '%s %s' % (cfg['param'], group)
-    ob('cleaning returns a value or raises the parameter error (got %s)' % oc1, not oc1.startswith('escaped'), 'escaped-exception raw=' + cfg['raw'])
+    ob('cleaning returns a value or raises the parameter error (got %s)' % oc1, not oc1.startswith('escaped'), 'escaped-exception')
     # purity
     shape_after, leaves_after = snapshot(raw)
     ob('the raw argument is not altered', shape_before == shape_after and len(leaves_before) == len(leaves_after), 'purity')
@@ -365,7 +371,7 @@ def harness(ctx, cfg):
     ob('cleaning the same raw value again gives the same outcome', oc1 == oc2, 'repeatable')
     if oc1 == 'ok' and oc2 == 'ok':
         ob('cleaning the same raw value again gives an equal value', equal_values(out1, out2), 'repeatable')
-        ob('the cleaned value has the documented type', typed_ok(cfg['param'], cfg['raw'], out1, cfg['wd']), 'type raw=' + cfg['raw'])
+        ob('the cleaned value has the documented type', typed_ok(cfg['param'], cfg['raw'], out1, cfg['wd']), 'type')
         # idempotence (paths: under an absolute working directory)
         if not cfg['param'].startswith('Path') or cfg['wd']:
             oc3, out3 = call_clean(param, out1, program, E)
